@@ -387,9 +387,13 @@ def gen_steps(rng, lib, n, opts):
 NAME_HOSTILE = [u"<", u">", u"&", u"\"", u"'", u"]]>", u"é", u"€", u"\U0001f600", u"<![CDATA[", u"&amp;", u"<b>"]
 
 
+NAME_CTRL = [u"\x01", u"\x07", u"\x1b[31m", u"\x7f", u"\ufffe", u"\x9b"]     # (no line boundary of str.splitlines() among them)
+
+
 def hostile_suffix(rng, opts):
     if opts.get("hostile_names") and rng.random() < 0.5:
-        return " " + "".join(rng.choice(NAME_HOSTILE) for _ in range(rng.randint(1, 3))) + " q"
+        pool = NAME_HOSTILE + NAME_CTRL if opts.get("hostile_ctrl_names") else NAME_HOSTILE
+        return " " + "".join(rng.choice(pool) for _ in range(rng.randint(1, 3))) + " q"
     return ""
 
 
@@ -943,6 +947,7 @@ def gen_world(seed, overrides=None, profile=None):
                 max_steps=so["max_steps"])
     opts["hostile_names"] = bool(dims.get("hostile"))
     opts["hostile_undefined"] = bool(dims.get("hostile_undefined"))
+    opts["hostile_ctrl_names"] = bool(dims.get("hostile_ctrl_names"))
     opts["table_mutation"] = bool(dims.get("table_mutation"))
     opts.update(dims.get("opts", {}))
     nfeat = rng.randint(*so["nfeat"])
